@@ -340,7 +340,7 @@ func typeShortName(t types.Type) string {
 func identicalModTime(got, want types.Type) bool {
 	if wn, ok := want.(*types.Named); ok && wn.Obj().Pkg() != nil && wn.Obj().Pkg().Path() == "time" && wn.Obj().Name() == "Time" {
 		gn, ok := got.(*types.Named)
-		return ok && gn.Obj().Pkg() == nil && gn.Obj().Name() == "Time"
+		return ok && gn.Obj().Name() == "Time" && (gn.Obj().Pkg() == nil || gn.Obj().Pkg().Path() == "time")
 	}
 	switch w := want.(type) {
 	case *types.Slice:
